@@ -1,4 +1,6 @@
 import AkVerif.Lemmas.XlsRows
+import AkVerif.Lemmas.XlsSort
+import AkVerif.Lemmas.XlsCoord
 /-!
 # C18 — objects read from a sheet match their source cells
 
@@ -253,7 +255,7 @@ theorem none_result {V : Type} (cv : Conv V) (cfg : Cfg V) (s : Sheet)
       intro k hk hkr
       have hks : k < srcs.length := by omega
       have hmem : srcs[k] ∈ srcs.take cfg.numId :=
-        List.mem_of_getElem? (by rw [List.getElem?_take]; simp [hk, hks])
+        mem_take_of_lt srcs cfg.numId k _ hk (by simp [hks])
       obtain ⟨c, hc, hb⟩ := hblank _ hmem
       obtain ⟨sl, hsl', hso⟩ := mapE_get _ _ _ hsrcs k srcs[k] (by simp [hks])
       rw [hc] at hso
@@ -275,7 +277,7 @@ theorem none_result {V : Type} (cv : Conv V) (cfg : Cfg V) (s : Sheet)
       obtain ⟨hal, hget⟩ := zipInit_spec cv cfg.rules srcs attrs hz
       have hka : k < attrs.length := by omega
       have hmem : attrs[k] ∈ attrs.take cfg.numId :=
-        List.mem_of_getElem? (by rw [List.getElem?_take]; simp [hk, hka])
+        mem_take_of_lt attrs cfg.numId k _ hk (by simp [hka])
       obtain ⟨r, s', hr, hs', hinit⟩ := hget k attrs[k] (by simp [hka])
       obtain ⟨sl, hsl', hso⟩ := mapE_get _ _ _ hsrcs k s' hs'
       have hok := attr_ok cv _ (knownTitles cfg.rules) curs[i] r sl s' attrs[k] (hsall k r sl hr hsl') hso hinit
@@ -328,6 +330,29 @@ theorem origin_cell_lookup {V : Type} (cv : Conv V) (cfg : Cfg V) (s : Sheet)
       rw [← f5]
       exact find_of_nodup _ hnd cell (hmem j cell f4)
     · cases hkey
+
+/-- The hypothesis of `origin_cell_lookup` holds for every worksheet whose cells carry the usual
+coordinates (`A1`, `B1`, … `Z1`, `AA1`, …: `mkSheet`, what the driver and the harness' worksheet
+use): they are pairwise distinct. -/
+theorem sheet_coordinates_distinct (rows : List (List Val)) :
+    ((mkSheet rows).flatten.map fun x => x.coord).Nodup :=
+  nodup_mkSheet rows
+
+/-- The text `get_attr_origin(attr)` gives for a whole ranged attribute whose reported cells are
+`items` (`{title: coordinate}`, see `value_at_origin`): the "skipped column" text when there is no
+range column, the coordinate when there is one, otherwise `lo:hi` where `lo` and `hi` are
+coordinates of cells of the range, the smallest and the largest one in Python's order of *strings*.
+(For cells of one row in single-letter columns that is the first and the last cell of the range;
+it is not for a range that crosses column `Z`, nor for a ladder table whose range cells come from
+different rows — the text then names a block that is not the set of source cells.) -/
+theorem range_origin_text (items : List (Key × List Char)) :
+    ∃ text, attrOrigin (.range items) none = .ok text ∧
+      ((items.map fun kc => kc.2) = [] ∧ text = Gen.C18.skippedOrigin ∨
+       (∃ c, (items.map fun kc => kc.2) = [c] ∧ text = c) ∨
+       (2 ≤ (items.map fun kc => kc.2).length ∧ ∃ lo hi, text = lo ++ ':' :: hi ∧
+          lo ∈ (items.map fun kc => kc.2) ∧ hi ∈ (items.map fun kc => kc.2) ∧
+          ∀ c ∈ (items.map fun kc => kc.2), ltCps c lo = false ∧ ltCps hi c = false)) :=
+  ⟨_, rfl, rangeDescr_spec _⟩
 
 /-- Ladder tables. If `s'` is the sheet `s` with the blank leading cells of its data rows filled in
 (`fillSheet`, described by `fill_cells`), then reading `s` as a ladder yields exactly what reading
@@ -461,9 +486,6 @@ example : ∃ s', fillSheet .blankAll ladderSheet = .ok s' ∧ s' ≠ ladderShee
   rw [heq] at hs'
   revert hs'
   decide +kernel
-
-/-- coordinates of `mkSheet` are distinct on this sheet (hypothesis of `origin_cell_lookup`) -/
-example : (ladderSheet.flatten.map fun x => x.coord).Nodup := by decide +kernel
 
 private def rangeSheet : Sheet := mkSheet
   [[.blank, .blank, .blank, .blank],
